@@ -6,6 +6,8 @@ package core
 import (
 	"com.tuntun.rangers/node/src/common"
 	"com.tuntun.rangers/node/src/middleware"
+	"com.tuntun.rangers/node/src/middleware/log"
+	"com.tuntun.rangers/node/src/middleware/notify"
 	"com.tuntun.rangers/node/src/middleware/types"
 	"com.tuntun.rangers/node/src/storage/account"
 	"math/big"
@@ -148,4 +150,12 @@ func VerifServeGroupRequest(height uint64) (*types.Group, bool) {
 	localHeight := groupChainImpl.height()
 	group := groupChainImpl.getGroupByHeight(height)
 	return group, height >= localHeight
+}
+
+// VerifGameExecutorRunWrite hands one client message to the gate write path
+// (GameExecutor.runWrite), as the AccountDBManager's queue does.
+func VerifGameExecutorRunWrite(msg *notify.ClientTransactionMessage) {
+	executor := GameExecutor{chain: blockChainImpl}
+	executor.logger = log.GetLoggerByIndex(log.GameExecutorLogConfig, common.GlobalConf.GetString("instance", "index", ""))
+	executor.runWrite(&middleware.Item{Value: msg})
 }
